@@ -43,6 +43,11 @@ def plan(tier, seed):
     jobs.append({'fn': 'scat_forward', 'cfg': {'order': 2, 'colour': True, 'biort': 'near_sym_b_bp', 'qshift': 'qshift_b_bp'}, 'grid': {'H': [16], 'W': [17]}})
     jobs.append({'fn': 'scat_forward', 'cfg': {'order': 2, 'magbias': 0.3}, 'grid': {'H': [16], 'W': [16]}})
     jobs.append({'fn': 'scat_forward', 'cfg': {'order': 1, 'magbias': 0.0}, 'grid': {'H': [8], 'W': [8]}})
+    # zero bias on images with exactly-zero regions (and the all-zero image): sqrt(0) - 0 = 0, never 0/0; and layers switched to eval()
+    for o in (1, 2):
+        jobs.append({'fn': 'scat_forward', 'cfg': {'order': o, 'magbias': 0.0, 'sparse': True}, 'grid': {'H': [16], 'W': [16]}})
+        jobs.append({'fn': 'scat_forward', 'cfg': {'order': o, 'magbias': 0.0, 'zero_image': True}, 'grid': {'H': [16], 'W': [16]}})
+        jobs.append({'fn': 'scat_forward', 'cfg': {'order': o, 'eval_mode': True, 'magbias': 0.3}, 'grid': {'H': [16], 'W': [16]}})
     return {
         'groups': gs,
         'native': [('bounded.py', [write_jobs('C08', jobs), seed], 'bounded: real ScatLayer / ScatLayerj2 vs the reference dtcwt composed with the defining formulas; shapes for odd / small sizes')],
